@@ -20,7 +20,7 @@ Pool(k) ==
     [] k = "enum" -> <<".RED.", ".GREEN.", ".BLUE.">>
     [] k = "ref"  -> <<"#1">>
     [] k = "sel"  -> <<"#1", "LAB('q')", "CNT(4)", "RATIO(2.5)", "ILIST((1,2))", "LAB('it''s')">>
-    [] k = "li"   -> <<"()", "(1)", "(1,-2,3)">>
+    [] k = "li"   -> <<"()", "(1)", "(1,-2,3)", "(1000000000000000,-9223372036854775806,99999999999999999)">>
     [] k = "sr"   -> <<"()", "(1.5)", "(1.5,2.5E3)">>
     [] k = "bs"   -> <<"()", "('a')", "('a','b','it''s')">>
     [] k = "ar"   -> <<"(1,2,3)">>
